@@ -590,7 +590,7 @@ func tableUnchanged(pre, post dht.VerifTableSnapshot, what string) *kit.Violatio
 
 func init() {
 	kit.Register("C19a",
-		"rapid: histories of 4..26 operations on a node (passive in 1/3 of cases, udp4 or dual-stack) over 4..16 simulated nodes in two IPv4 /24s and one IPv6 /64, every one of which names the others in its find_node / get_peers / get replies; 1..3 blocklists of single addresses, host spans, whole /24s and the IPv6 /64, as a harness-side ranger or as the library's own iplist.New list, installed at construction or by SetIPBlockList at drawn points, including while a query to the newly blocked address is outstanding (its reply is delivered afterwards). Operations: inbound queries of every method, responses and errors from blocked and unblocked nodes; Ping / Query (2 tries) / FindNode / GetPeers / Get / Put to them; Bootstrap, Announce, getput.Get, getput.Put; AddNode followed by questionable pings; one TableMaintainer pass. Oracle: no datagram's destination is covered by the list in force when it was written (lists change only at quiescent points); a datagram from a covered source causes no write, no table change, no stored data or callback and completes no query; a passive node sends no response or error, and every query carries ro=1 exactly when the node is passive. Non-trivial: blocked addresses were involved on >= 2 different paths.",
+		"rapid: histories of 4..26 operations on a node (passive in 1/3 of cases, udp4 or dual-stack) over 4..16 simulated nodes in two IPv4 /24s and one IPv6 /64, every one of which names the others in its find_node / get_peers / get replies; 1..3 blocklists of single addresses, host spans, whole /24s and the IPv6 /64, as a harness-side ranger or as the library's own iplist.New list, installed at construction or by SetIPBlockList at drawn points, including while a query to the newly blocked address is outstanding (its reply is delivered afterwards). Operations: inbound queries of every method, responses and errors from blocked and unblocked nodes; Ping / Query (2 tries) / FindNode / GetPeers / Get / Put to them; Bootstrap, Announce, getput.Get, getput.Put; AddNode followed by questionable pings; one TableMaintainer pass. Oracle: no datagram's destination is covered by the list in force when it was written (lists change only at quiescent points); a datagram from a covered source causes no write, no table change, no stored data or callback and completes no query; a passive node sends no response or error, and every query carries ro=1 exactly when the node is passive. Non-trivial: blocked addresses were involved on >= 2 different paths. In a third of the cases BEP 42 is enforced (all simulated nodes carry IDs valid for their addresses), and the node filter the server hands to every lookup (TraversalNodeFilter) is asked directly about each node, with and without an ID: it must refuse a covered address.",
 		[]string{"AddNode of a blocked address may create a table entry: only datagrams and the effects of datagrams are judged", "a reply already queued to the socket is judged against the list in force when the node reads it"},
 		genC19, runC19)
 }
